@@ -38,6 +38,26 @@ class Obj:
         return f"<{self.tag}>"
 
 
+class SymZip:
+    """zip of symbolic ranges / array slices of provably equal length: one abstract iteration, every component
+    expressed through one fresh variable that runs over the pivot component's own index range."""
+
+    def __init__(self, parts):
+        self.parts = parts
+
+    def symiter(self, ev):
+        ranges = [p for p in self.parts if isinstance(p, SymRange)]
+        pivot = next((p for p in ranges if p.lo == 0), ranges[0] if ranges else self.parts[0])
+        r = ev.fresh("r" if isinstance(pivot, SymRange) else "k")
+        ev.facts.append((r, pivot.lo, pivot.hi, "range" if isinstance(pivot, SymRange) else pivot.name))
+        off = Poly.atom(r) - pivot.lo
+        out = []
+        for p in self.parts:
+            i = p.lo + off
+            out.append(i if isinstance(p, SymRange) else Poly.atom(f"{p.name}[{i!r}]"))
+        return [tuple(out)]
+
+
 class Call:
     """Result of calling an opaque function (evaluate_tensora)."""
 
@@ -569,6 +589,13 @@ class Evaluator:
                 return len(args[0])
             if name in ("list", "tuple") and args and isinstance(args[0], SymList):
                 return args[0]
+            if name == "zip" and any(isinstance(a, (SymRange, SymList)) for a in args):
+                if not all(isinstance(a, (SymRange, SymList)) for a in args):
+                    raise Uninterpretable("zip of a symbolic and a concrete sequence")
+                lens = [a.hi - a.lo for a in args]
+                if any(n != lens[0] for n in lens):
+                    raise Uninterpretable(f"zip of sequences whose lengths {lens!r} are not provably equal")
+                return SymZip(list(args))
             if name == "zip":
                 if kwargs.get("strict") and len({len(a) for a in args}) > 1:
                     raise Raised("ValueError")
